@@ -342,11 +342,94 @@ def stage_stat_fault(ctx, e):
                           {"kind": "stat-fault", "errno": errno.errorcode[err]})
 
 
+def stage_read_fault(ctx, e):
+    """"corrupt" is recorded only when the file differs: an intact file whose hashing fails with an I/O error (EIO / ESTALE at
+    open or at the n-th read; once or every time) must not get the verdict X - nor N, nor Y unless a retry really hashed it.
+    EACCES at open is the code's documented "None on error" case (an unreadable file is recorded corrupt): known finding F24."""
+    import errno
+    import alpenhorn.common.util as util
+    from alpenhorn.db import ArchiveAcq, ArchiveFile, ArchiveFileCopy, StorageNode
+    from alpenhorn.io.default import DefaultNodeIO
+    from alpenhorn.io._default_asyncs import check_async
+    from alpenhorn.scheduler import FairMultiFIFOQueue
+    import builtins
+    node = StorageNode.get(name="n1")
+    acq = ArchiveAcq.get(name="acq")
+    bs = 32 * 1024
+    plans = [(errno.EIO, "open", False), (errno.EIO, "read0", False), (errno.EIO, "read2", False), (errno.EIO, "read2", True),
+             (errno.ESTALE, "read1", False), (errno.ESTALE, "open", True), (errno.ENOSPC, "read0", True), (errno.EACCES, "open", True)]
+    for i, (err, where, persistent) in enumerate(plans):
+        data = bytes((j * 7 + i) % 251 for j in range(3 * bs + 17))
+        name = f"readfault/r{i}.dat"
+        frow = ArchiveFile.create(acq=acq, name=name, size_b=len(data), md5sum=hexdigest(data))
+        path = os.path.join(node.root, "acq", name)
+        os.makedirs(os.path.dirname(path), exist_ok=True)
+        with open(path, "wb") as f:
+            f.write(data)
+        copy = ArchiveFileCopy.create(file=frow, node=node, has_file="M", wants_file="Y")
+        fired = []
+
+        class Faulty:
+            def __init__(self, fh):
+                self.fh, self.n = fh, 0
+
+            def read(self, *a):
+                k = self.n
+                self.n += 1
+                if where == f"read{k}" and (persistent or not fired):
+                    fired.append(1)
+                    raise OSError(err, os.strerror(err), path)
+                return self.fh.read(*a)
+
+            def __enter__(self):
+                return self
+
+            def __exit__(self, *a):
+                self.fh.close()
+
+            def __getattr__(self, nm):
+                return getattr(self.fh, nm)
+
+        def faulty_open(fn, *a, **k):
+            if str(fn) == path:
+                if where == "open" and (persistent or not fired):
+                    fired.append(1)
+                    raise OSError(err, os.strerror(err), path) if err != errno.EACCES else PermissionError(err, os.strerror(err), path)
+                return Faulty(builtins.open(fn, *a, **k))
+            return builtins.open(fn, *a, **k)
+        util.open = faulty_open
+        raised = None
+        try:
+            check_async(None, DefaultNodeIO(node, {}, FairMultiFIFOQueue()), ArchiveFileCopy.get(id=copy.id))
+        except OSError as ex:
+            raised = type(ex).__name__
+        finally:
+            del util.open
+        real = ArchiveFileCopy.get(id=copy.id).has_file
+        with builtins.open(path, "rb") as f:
+            untouched = f.read() == data
+        ctx.case(("read-fault", err, where, persistent), nontrivial=True)
+        ctx.count(f"verdict:read-fault:{errno.errorcode[err]}:{real}{'/raised' if raised else ''}")
+        if not fired:
+            continue
+        if not untouched:
+            ctx.violation("verdict-readfault-modified", "verification modified the file", {"kind": "read-fault"})
+        if err == errno.EACCES and real == "X":
+            ctx.violation("unreadable-recorded-corrupt", f"an intact copy that the daemon may not read (EACCES at open) was recorded corrupt (X)",
+                          {"kind": "read-fault", "errno": "EACCES", "at": where})
+        elif real in ("X", "N") or (real == "Y" and persistent):
+            ctx.violation("verdict-readfault", f"the check recorded the verdict {real} for an intact file (size and digest as registered) whose "
+                          f"hashing failed with {errno.errorcode[err]} at {where} ({'every time' if persistent else 'once'}): it has not "
+                          f"been compared with the registered digest", {"kind": "read-fault", "errno": errno.errorcode[err], "at": where,
+                                                                        "persistent": persistent})
+
+
 def run(ctx):
     ok = common.proof_stage(ctx, MODULE)
     with envmod.CliEnv() as e:
         stage_verdict(ctx, e)
         stage_stat_fault(ctx, e)
+        stage_read_fault(ctx, e)
         stage_md5(ctx, e)
         stage_validator(ctx, e)
     ctx.corr_broken = ctx.corr_broken[:6]
